@@ -14,6 +14,40 @@ func init() {
 }
 
 func runC04(p *Prog, r *Report) {
+	{
+		q := NewQ(p, r)
+		R := "C04.23/requeue-sites"
+		r.Describe(R, "a request is put back on the send queue by two things only: the loss of the connection that carried it (RemovePipe) and the expiry of the retry interval (the timer armed in send): a failed write already leads to the first, so re-queuing there too transmits the request twice")
+		rm := p.Func("protocol/req", "context", "resendMessage")
+		n, bad := 0, ""
+		for _, fn := range p.Funcs {
+			if rel, ok := p.FuncRel(fn); !ok || rel != "protocol/req" || strings.HasSuffix(p.Fset.Position(fn.Pos()).Filename, "_test.go") {
+				continue
+			}
+			EachInstr(fn, func(in ssa.Instruction) {
+				c := CallOf(in)
+				if c == nil || rm == nil || c.StaticCallee() != rm {
+					return
+				}
+				n++
+				okSite := false
+				if p.FuncName(p.closureHome(fn)) == "protocol/req.(*socket).RemovePipe" {
+					okSite = true
+				}
+				// the callback handed to time.AfterFunc (the retry timer)
+				for _, ref := range refsOfClosure(fn) {
+					if cc := CallOf(ref); cc != nil && CalleeName(cc) == "time.AfterFunc" {
+						okSite = true
+					}
+				}
+				if !okSite {
+					bad = p.FuncName(fn) + " at " + p.InstrPos(in)
+				}
+			})
+		}
+		r.Check(rm != nil && n >= 2 && bad == "", R, "callers-of-resendMessage", "-", "only RemovePipe and the retry timer re-queue a request", "the request is re-queued by "+bad+" as well: a write that fails already closes the pipe, whose removal re-queues the request — it is then transmitted twice, at once")
+		_ = q
+	}
 	queuePops(p, r, "C04.18/queue-pops", func(rel string) bool { return rel == "protocol/req" })
 	r.Floor("C04.18/queue-pops", "queue_pop_sites", 1)
 	runSweeps(p, r, "C04.17/pipe-loss-reaches-every-context", "RemovePipe visits every context: the loop that re-sends or cancels the requests carried by the lost pipe cannot be left early", reqPipeLossSweep)
